@@ -64,6 +64,11 @@ def evaluate(seed, tier, props_override=None):
         res["demo_passes_unchanged"] = rc == 0
         if rc != 0:
             res["demo_unchanged_tail"] = out[-600:]
+        def rm_demo():
+            for f in os.listdir(os.path.join(repo, "tests")):
+                if f.startswith("seed_demo"):
+                    os.unlink(os.path.join(repo, "tests", f))
+        rm_demo()
         sh(f"git apply {patch}", cwd=repo)
         rc, out = sh("cargo build --offline --features lz4,lzma,zstd 2>&1 | tail -3", cwd=repo, timeout=1800)
         res["builds"] = "error" not in out.lower() or "Finished" in out
@@ -74,10 +79,7 @@ def evaluate(seed, tier, props_override=None):
         rc, out = sh(dc, cwd=repo, env={"TMPDIR": tmpd}, timeout=1800)
         res["demo_fails_with_change"] = rc != 0
         # remove the demo file from tests/ so that it is not part of the tree the checks see
-        sh("git -C /repo archive HEAD tests | tar -t > /dev/null", cwd=repo)
-        for f in os.listdir(os.path.join(repo, "tests")):
-            if f.startswith("seed_demo"):
-                os.unlink(os.path.join(repo, "tests", f))
+        rm_demo()
         shutil.rmtree(os.path.join(repo, "target"), ignore_errors=True)
         # the checks, in a private mount namespace
         verif = os.path.join(base, "verif")
